@@ -19,6 +19,23 @@ fn main() {
         std::process::exit(2);
     }
     std::panic::set_hook(Box::new(|_| {}));
+    if args[0] == "stats" {
+        let seed: u64 = args.get(1).and_then(|s| s.parse().ok()).unwrap_or(1);
+        let n: u64 = args.get(2).and_then(|s| s.parse().ok()).unwrap_or(1000);
+        let mut rng = util::Rng::new(seed);
+        let (mut v, mut vc, mut pk, mut withopt, mut ptrs, mut recs) = (0, 0, 0, 0, 0, 0);
+        for _ in 0..n {
+            let p = wire::gen_valid(&mut rng, true);
+            if let Some(m) = wire::parse_ref(&p) { vc += 1; if m.opt.is_some() { withopt += 1; } recs += m.recs.len();
+                if p[12..].windows(1).any(|w| w[0] & 0xc0 == 0xc0) { ptrs += 1; } }
+            let p = wire::gen_valid(&mut rng, false);
+            if wire::parse_ref(&p).is_some() { v += 1; }
+            let p = wire::gen_packet(&mut rng);
+            if wire::parse_ref(&p).is_some() { pk += 1; }
+        }
+        println!("of {}: gen_valid(compress) accepted {} (with OPT {}, with 0xc0 bytes {}, records {}), gen_valid(plain) accepted {}, gen_packet accepted {}", n, vc, withopt, ptrs, recs, v, pk);
+        return;
+    }
     let code = if args[0] == "search" {
         let prop = args.get(1).map(|s| s.as_str()).unwrap_or("");
         let seed: u64 = args.get(2).and_then(|s| s.parse().ok()).unwrap_or(1);
